@@ -19,16 +19,16 @@ pub fn plan(property: &str) -> Option<Vec<PlanItem>> {
         thorough_runs,
     };
     Some(match property {
-        "C01" => vec![it("graph", 600_000, 30_000_000)],
-        "C02" => vec![it("stable", 600_000, 30_000_000)],
-        "C03" => vec![it("graphmap", 600_000, 30_000_000)],
-        "C04" => vec![it("matrix", 400_000, 20_000_000)],
-        "C05" => vec![it("csr", 300_000, 15_000_000), it("list", 300_000, 15_000_000)],
-        "C06" => vec![it("csr-visit", 40_000, 2_000_000), it("list-visit", 40_000, 2_000_000), it("matrix-visit", 40_000, 2_000_000), it("graph-visit", 60_000, 3_000_000), it("stable-visit", 60_000, 3_000_000), it("graphmap-visit", 60_000, 3_000_000)],
-        "C07" => vec![it("replicas", 120_000, 6_000_000)],
-        "C14" => vec![it("acyclic-graph", 200_000, 10_000_000), it("acyclic-stable", 200_000, 10_000_000)],
-        "C17" => vec![it("serde-stream", 300_000, 15_000_000)],
-        "C19" => vec![it("unionfind", 4_000_000, 400_000_000)],
+        "C01" => vec![it("graph", 600_000, 12_000_000)],
+        "C02" => vec![it("stable", 600_000, 12_000_000)],
+        "C03" => vec![it("graphmap", 600_000, 15_000_000)],
+        "C04" => vec![it("matrix", 400_000, 12_000_000)],
+        "C05" => vec![it("csr", 300_000, 9_000_000), it("list", 300_000, 9_000_000)],
+        "C06" => vec![it("csr-visit", 40_000, 800_000), it("list-visit", 40_000, 800_000), it("matrix-visit", 40_000, 800_000), it("graph-visit", 60_000, 1_200_000), it("stable-visit", 60_000, 1_200_000), it("graphmap-visit", 60_000, 1_200_000)],
+        "C07" => vec![it("replicas", 120_000, 4_000_000)],
+        "C14" => vec![it("acyclic-graph", 200_000, 6_000_000), it("acyclic-stable", 200_000, 6_000_000)],
+        "C17" => vec![it("serde-stream", 300_000, 6_000_000)],
+        "C19" => vec![it("unionfind", 4_000_000, 120_000_000)],
         _ => return None,
     })
 }
